@@ -522,7 +522,7 @@ def replay_slots(cex):
         resp = e.get_receiver(survey.receivers.values() if False else
                               survey._rec_types_coord(s_)[0], method='linear')
         if not np.allclose(sim.data.synthetic.loc[s_, :, f_].data, resp,
-                           rtol=1e-5):
+                           rtol=1e-5, atol=1e-9*np.abs(resp).max()):
             msgs.append(f"synthetic data of ({s_},{f_}) are not sampled "
                         f"from its own field")
         if sim.get_efield_info(s_, f_)['tol'] != 1e-8:
